@@ -100,11 +100,6 @@ def eval_annotation(ctx, node, module):
     raise Unmodelled(f'annotation {ast.unparse(node)}')
 
 
-def protocol_models(ctx):
-    """(kept for callers) inspect.signature and the typing forms are modelled by the interpreter itself."""
-    return {}
-
-
 def registered(ctx, name):
     for f in ctx.a.registry:
         if f.name == name:
